@@ -58,6 +58,9 @@ class PubSubSpec(Spec):
         if self.prop == "C14":
             from harness import pubsub
             return pubsub.c14_det_cases(tier)
+        if self.prop == "C05":
+            from harness import pubsub
+            return pubsub.c05_det_cases(tier)
         return []
 
 
@@ -152,8 +155,8 @@ class IdentitySpec(Spec):
             "wrap the dynamic-id cursor with some ids held live; after every step a directed probe is published to "
             "every live id.  non-trivial = more than one connect attempt; distinct = distinct event-log digest")
     expected_probes = ("must_accept_checked", "must_refuse_checked", "dynamic_id_checked", "wire_options_checked",
-                       "client_info_checked", "dyn_burst_110", "dyn_burst_130", "dynamic_id_high", "client_ctor_refused",
-                       "fanout>1")
+                       "client_info_checked", "dyn_burst_110", "dyn_burst_130", "dyn_burst_230", "dynamic_id_high",
+                       "client_ctor_refused", "fanout>1", "reconnect_same_client")
     components = {"real": REAL_MANAGER + REAL_CLIENT, "stub": STUB_NET}
     assumptions = ["explicit id exactly 100 and a unique newcomer reusing the name of a multi-instance incumbent are "
                    "don't-care (statement silent, client and manager disagree today)",
@@ -206,10 +209,11 @@ class StatsSpec(Spec):
             "occasionally one type 40000-65535 times; types at 0, 9999, 10000 and -1) while the virtual clock is "
             "stepped across TIMING (0.9 s) and TRAFFIC (1 s) periods, including boundaries inside a burst and jumps "
             "over several periods; a logger monitor subscribed to ALL sees every report and every forwarded message. "
-            "No faults are injected (the quantifier is over multisets and interval sequences).  Every run is "
+            "In some runs ordinary subscribers are at times not writable, so FAILED_MESSAGE notices join the traffic.  Every run is "
             "non-trivial; distinct = distinct event-log digest")
     expected_probes = ("timing_reports_checked", "traffic_reports_checked", "traffic_submsgs_2", "traffic_submsgs_3",
-                       "traffic_submsgs_5", "timing_empty_interval", "timing_out_of_range_types", "huge_count")
+                       "traffic_submsgs_5", "timing_empty_interval", "timing_out_of_range_types", "huge_count",
+                       "notices_counted", "timing_switched_off")
     assumptions = ["'handled for forwarding' = client data frames read + manager-originated messages sent through "
                    "forwarding; ACKNOWLEDGE copies to loggers are not asserted either way",
                    "out-of-range destinations, pre-handshake frames and connection failures are not generated here"]
@@ -239,7 +243,7 @@ class DataLoggerSpec(Spec):
             "distinct = distinct scheduler log + operation trace")
     expected_probes = ("checked_raw", "checked_json", "checked_quicklogger", "checked_msg_header", "subdivided_files", "empty_sequence",
                        "single_message", "lock_contended", "runs_with_flush", "runs_with_3+_flushes", "writer_busy_seen",
-                       "ql_files_read", "second_recording")
+                       "ql_files_read", "second_recording", "dataset_replaced", "dataset_removed")
     components = {"real": ["pyrtma.data_logger.data_collection (DataCollection incl. the writer loop)",
                            "pyrtma.data_logger.data_set", "data_formatter and the raw/json/quicklogger formatters",
                            "pyrtma.data_logger.metadata", "pyrtma.utils.quicklogger_reader (QLReader)",
@@ -282,7 +286,7 @@ class ValidationSpec(Spec):
             "in quick).  non-trivial = the run contained a refusal or an in-force probe; distinct = distinct trace")
     expected_probes = ("probe_in_force", "probe_inside_block", "validation_off_inside_block", "block_exception",
                        "block_lib_exception", "nested_block", "tasks_3", "assign_set", "assign_item", "assign_slice",
-                       "assign_from", "refused", "accepted")
+                       "assign_from", "refused", "accepted", "stale_accessor_used_in_force")
     components = {"real": ["pyrtma.validators (all descriptors, disable_message_validation)", "pyrtma.message_base",
                            "pyrtma.message_data"],
                   "stub": ["baton-scheduled tasks instead of OS-scheduled threads"]}
@@ -309,7 +313,8 @@ def _register():
                                        "logger_waited", "self_delivery", "invalid_dest", "fanout>1",
                                        "write_fail"))
     _SPECS["C05"] = PubSubSpec("C05", ("multi_ready_round", "acks_mixed_with_data", "periodic_on_stream",
-                                       "notice_on_stream", "common_pairs_checked", "truncated_final_frame"))
+                                       "notice_on_stream", "common_pairs_checked", "truncated_final_frame",
+                                       "long_stream_33000", "long_stream_66000", "pre_handshake_frames"))
     _SPECS["C19"] = PubSubSpec("C19", ("handshake_checked", "acked_control_checked", "unacked_frame_checked",
                                        "logger_copy_checked", "refused_or_ignored_connect_checked"))
     s = PubSubSpec("C14", ("notices_expected", "logger_waited", "drop_branch", "write_fail"))
